@@ -162,3 +162,22 @@ theorem C05_app_limit_gate (s : PState) (rid : Option String) (cfg : AppCfg)
 /-- **C05 (tie: the table-full test is the code's).** -/
 theorem C05_table_full_tied (t : MTable) :
     decide (t.count ≥ t.max) = Gen.Decisions.tableFull (t.count : Int) (t.max : Int) := tied_tableFull t
+
+/-- **C05 (tie: the negotiation functions are the code's).**  The model's `getEventConfig`, `newHarvestLimits` and
+`finalLogLimit` equal `getEventConfig`, `NewHarvestLimits` and `processLogEventLimits` as translated (symbolic execution of
+the current source by the extractor, `Gen/Negotiation.lean`) for all inputs — so `C05_limits_negotiated`,
+`C05_advertised`, `C05_log_cap` … are statements about the functions the daemon runs. -/
+theorem C05_negotiation_tied :
+    (∀ (raw : Option Int) (cr dl dr : Nat),
+      match getEventConfig raw cr dl dr with
+      | none => (Gen.Negotiation.getEventConfig cr dl dr (raw.getD 0) raw.isSome).2.2 = true
+      | some c => Gen.Negotiation.getEventConfig cr dl dr (raw.getD 0) raw.isSome = (c.limit, (c.period : Int), false)) ∧
+    (∀ span log custom : Int,
+      Gen.Negotiation.newHarvestLimits custom log span true =
+        ((newHarvestLimits span log custom).err.limit, (newHarvestLimits span log custom).txn.limit,
+         (newHarvestLimits span log custom).custom.limit, (newHarvestLimits span log custom).span.limit,
+         (newHarvestLimits span log custom).log.limit)) ∧
+    (∀ (agent collectorLimit : Int) (collectorPeriod : Nat),
+      Gen.Negotiation.processLogEventLimits true true collectorLimit (collectorPeriod : Int) true agent =
+        finalLogLimit agent collectorLimit collectorPeriod) :=
+  ⟨tied_getEventConfig, fun s l c => (tied_newHarvestLimits s l c).1, fun a c p => (tied_processLogEventLimits a c p).1⟩
